@@ -59,7 +59,11 @@ THEOREMS = ['C05_pot_transform_compl_untouched', 'C05_pot_transform_den',
             'C05_interface_laws_linked', 'C05_pipeline_located_linked',
             'C05_fill_phase_located_linked', 'C05_pot_transform_den_linked',
             'C05_leaf_region_linked', 'C05_returned_cells_distinct',
-            'C05_trcl_phase_den_linked', 'C05_cell_transform_den_linked']
+            'C05_trcl_phase_den_linked', 'C05_cell_transform_den_linked',
+            'C05_fill_inline_located', 'C05_pipeline_with_lattice_linked',
+            'C05_located_through_lattice_linked',
+            'C05_precedence_located_linked',
+            'C05_pipeline_with_lattices_linked']
 
 
 def tie_case_summary(case):
